@@ -137,7 +137,36 @@ def r12a(ctx):
                 ctx.unknown("R12a", construct, "each event's rows are selected through that event's start entry",
                             f"unrecognised selection `{u(arg)[:60]}`")
     if not found:
-        ctx.unknown("R12a", construct, "per-event split of the loaded chunk found", "no append to self._data[...] inside a loop")
+        # no per-event loop: the chunk is cut in one expression.  Cutting at accumulated lengths (np.split / cumsum of the length column) assumes
+        # that the rows of consecutive loaded events are adjacent -- the defect repaired in 0f02627
+        whole = [n for n in ast.walk(fn) if isinstance(n, ast.Assign) and u(n.targets[0]).startswith("self._data[") and not (isinstance(n.value, ast.List) and not n.value.elts)]
+        for n in whole:
+            env = {}
+            for st in ast.walk(fn):
+                if isinstance(st, ast.Assign) and isinstance(st.targets[0], ast.Name):
+                    env[st.targets[0].id] = st.value
+            txt = u(n.value)
+            seen, work = set(), [x.id for x in ast.walk(n.value) if isinstance(x, ast.Name)]
+            while work:
+                nm = work.pop()
+                if nm in seen or nm not in env:
+                    continue
+                seen.add(nm)
+                txt += " ; " + u(env[nm])
+                work += [x.id for x in ast.walk(env[nm]) if isinstance(x, ast.Name)]
+            uses_cumlen = ("cumsum" in txt or "np.split" in txt) and any(f"{i}[:, 1]" in txt for i in idx_names)
+            per_event_start = any(isinstance(x, (ast.ListComp, ast.GeneratorExp)) and any(nm in u(x) for nm in idx_names) and "0]" in u(x) for x in ast.walk(n.value))
+            found += 1
+            if uses_cumlen and not per_event_start:
+                ctx.bad("R12a", construct, "each event's rows are selected through that event's start entry (index column 0)",
+                        f"`{u(n)[:90]}` cuts the loaded block at accumulated lengths: rows of loaded events are assumed adjacent", key_detail="per-event start not used",
+                        loc=ctx.loc("pyrex.io", n))
+            elif per_event_start:
+                ctx.ok("R12a", construct, "each event's rows are selected through that event's start entry", u(n)[:80])
+            else:
+                ctx.unknown("R12a", construct, "each event's rows are selected through that event's start entry", f"unrecognised selection `{u(n.value)[:60]}`")
+    if not found:
+        ctx.unknown("R12a", construct, "per-event split of the loaded chunk found", "no append / assignment to self._data[...]")
 
 
 # ------------------------------------------------------------------------------------------------ R12b
@@ -473,7 +502,32 @@ def r12f(ctx):
               "R12f", q + ".count", "count getter sums the slots; the setter adjusts slot 0 so that the getter returns the assigned value", "", key_detail="count get/set")
 
 
+def r12g(ctx):
+    """chunk bounds: _load_data takes the end of a chunk from the last event with the largest start entry; that is only right because every event
+    carries an entry for every table -- (running counter, 0) when it contributes nothing (= R11c preset / unconditional index store)"""
+    from . import c11
+    repo = ctx.repo
+    ctx.rule("R12g", "chunk end = start + length of the LAST event with the largest start entry; every event has an index entry for every table (preset, never skipped)",
+             expected=3, kind="N")
+    fn = repo.member(IT, "_load_data")
+    env = {}
+    for st in ast.walk(fn):
+        if isinstance(st, ast.Assign) and isinstance(st.targets[0], ast.Name):
+            env[st.targets[0].id] = st.value
+    ok = u(env.get("tmp_start")) == "np.min(tmp_indices[:, 0])" and u(env.get("tmp_end_idx")) == "np.where(tmp_indices[:, 0] == np.max(tmp_indices[:, 0]))[0][-1]" \
+        and u(env.get("tmp_end")) == "tmp_indices[tmp_end_idx][0] + tmp_indices[tmp_end_idx][1]" and u(env.get("tmp")) == "self._object[val][tmp_start:tmp_end]"
+    ctx.check(ok, "R12g", f"{IT}._load_data", "loaded block = rows [min start, start + length of the last event with the maximal start)", "", key_detail="chunk bounds",
+              loc=ctx.loc("pyrex.io", fn))
+    sub = type(ctx)(ctx.repo, ctx.prop, ctx.tier)
+    c11.r11c(sub)
+    for o in sub.obs:
+        if "_write_indices" in o.construct or "_preset_all_indices" in o.construct:
+            o.rule = "R12g"
+            ctx.obs.append(o)
+
+
 def run(ctx):
+    ctx.guard(r12g)
     ctx.guard(r12a)
     ctx.guard(r12b)
     ctx.guard(r12c)
@@ -484,6 +538,11 @@ def run(ctx):
 
 SELFTEST = {
     "faults": [
+        {"name": "np.split at cumulative lengths", "file": "pyrex/io.py",
+         "old": "                for start, length in tmp_indices:\n                    start = start - tmp_start\n                    self._data[key].append(tmp[start:start+length])",
+         "new": "                lengths = tmp_indices[:, 1]\n                self._data[key] = np.split(tmp, np.cumsum(lengths)[:-1])", "rule": "R12a"},
+        {"name": "zero-length index entries skipped", "file": "pyrex/io.py", "old": "                indices[global_index_value, i] = (start_index, length)\n",
+         "new": "                if length>0:\n                    indices[global_index_value, i] = (start_index, length)\n", "rule": "R12g"},
         {"name": "split the chunk by accumulated lengths (the defect repaired by 0f02627)", "file": "pyrex/io.py",
          "old": "                for start, length in tmp_indices:\n                    start = start - tmp_start\n                    self._data[key].append(tmp[start:start+length])",
          "new": "                start = 0\n                for length in tmp_indices[:, 1]:\n                    self._data[key].append(tmp[start:start+length])\n                    start = start+length",
